@@ -277,6 +277,7 @@ def keyed_elements(tier, rng):
         ("with_item", A_LK, H([S(10)], index=V(0), insert=True)),
         ("with_item", A_LK, H([S(10)], index=V(0))),
         ("with_item", A_LK, H([S(10)], index=V(-1), kw=kw)),
+        ("with_item", A_LK, H([], index=V(0), kw=[(2, S(11))])),      # replace at index, keywords only: built from scratch
         ("update_item", A_LK, H([V(0), S(11)])),
         ("update_item", A_LK, H([V(0), S(11)], kw=kw)),
         ("update_item", A_LK, H([V(0)], kw=kw)),
@@ -287,6 +288,10 @@ def keyed_elements(tier, rng):
         ("with_item", A_DK, H([S(7), S(10)])),
         ("with_item", A_DK, H([S(7), S(10)], kw=kw)),
         ("with_item", A_DK, H([S(8)], kw=[(2, S(11))])),
+        # existing key, keywords only: with_ REPLACES -- the element is built from scratch,
+        # nothing of the stored element (non-default a1) may leak into it
+        ("with_item", A_DK, H([S(7)], kw=[(2, S(11))])),
+        ("with_item", A_DK, H([S(7)], kw=[(2, S(10)), (1, V(2))])),
         ("update_item", A_DK, H([S(7), S(11)])),
         ("update_item", A_DK, H([S(7), S(11)], kw=kw)),
         ("update_item", A_DK, H([S(7)], kw=kw)),
